@@ -285,7 +285,7 @@ def run_uring(chk):
     st = chk.cov.setdefault("uring_cases", {"cases": 0, "passed": 0})
     cases = uring_cases(chk.tier)
     def one(c):
-        return c, vlib.sh2([exe] + list(c), timeout=120)
+        return c, vlib.sh2([exe] + list(c), timeout=400)
     # the cases share nothing; a few at a time (each starts real threads)
     with ThreadPoolExecutor(4) as ex:
         results = list(ex.map(one, cases))
